@@ -33,14 +33,15 @@ type fault struct {
 }
 
 type scenario struct {
-	ID      int     `json:"id"`
-	Proto   string  `json:"protocol"`
-	Retry   int     `json:"retry_max"`
-	N       int     `json:"judged_messages"`
-	Faults  []fault `json:"faults"`
-	Content string  `json:"content"` // plain | percent | big | mixed
-	Seed    int64   `json:"seed"`
-	Backlog int     `json:"channel_capacity"` // 0: unbuffered hand-over (logical time); >0: bursts into a buffered channel, no faults
+	ID       int     `json:"id"`
+	Proto    string  `json:"protocol"`
+	Retry    int     `json:"retry_max"`
+	N        int     `json:"judged_messages"`
+	Faults   []fault `json:"faults"`
+	Content  string  `json:"content"` // plain | percent | big | mixed
+	Seed     int64   `json:"seed"`
+	Backlog  int     `json:"channel_capacity"` // 0: unbuffered hand-over (logical time); >0: bursts into a buffered channel, no faults
+	Spelling string  `json:"protocol_as_configured,omitempty"`
 }
 
 type handed struct {
@@ -378,7 +379,11 @@ func runScenario(sc scenario, dir string) (res result, wit witness) {
 	}
 	defer s.shutdown()
 	conf := filepath.Join(dir, fmt.Sprintf("mq-%d.conf", atomic.AddInt64(&fileNo, 1)))
-	os.WriteFile(conf, []byte(fmt.Sprintf("url: 127.0.0.1:%d\nprotocol: %s\nretry-max: %d\n", s.port, sc.Proto, sc.Retry)), 0o644)
+	spelling := sc.Proto
+	if sc.Spelling != "" {
+		spelling = sc.Spelling // another name net.Dial takes for the same transport (tcp4, udp4)
+	}
+	os.WriteFile(conf, []byte(fmt.Sprintf("url: 127.0.0.1:%d\nprotocol: %s\nretry-max: %d\n", s.port, spelling, sc.Retry)), 0o644)
 	defer os.Remove(conf)
 	var ec uint64
 	p := producer.NewProducer("rawSocket")
@@ -721,6 +726,13 @@ func scenarios(seed int64, thorough bool) []scenario {
 			}
 		}
 	}
+	// the transport under its other names: "tcp4" / "udp4" are what a dual-stack-wary operator writes
+	for _, kind := range []string{"close", "rst", "midline"} {
+		for _, r := range []int{0, 2} {
+			add(scenario{Proto: "tcp", Spelling: "tcp4", Retry: r, N: 5 + 25, Content: "plain", Faults: []fault{{After: 5, Kind: kind}}})
+		}
+	}
+	add(scenario{Proto: "udp", Spelling: "udp4", Retry: 2, N: 30, Content: "plain", Faults: []fault{{After: 5, Kind: "down", Down: 5}}})
 	// long pauses of a sink that stays connected (longer than any plausible write timeout)
 	for _, r := range []int{0, 2} {
 		add(scenario{Proto: "tcp", Retry: r, N: 5 + 25, Content: "plain", Faults: []fault{{After: 5, Kind: "stall", PauseMs: 6500}}})
@@ -853,7 +865,7 @@ func main() {
 	run.Set("stalls_injected", stalls)
 	run.Set("stalls_in_which_a_producer_write_blocked_mid_message", stallsBlocked)
 	run.Set("backends_not_reached", []string{"kafka (sarama)", "kafka (segmentio)", "nsq: need brokers that do not exist in this sandbox"})
-	run.SetRule("real producer.NewProducer('rawSocket') + config file + Run() against an in-process sink. Fault enumeration: {graceful close, RST, mid-line reset, stall (sink stops reading until a producer write blocks mid-message, then RST), pause (the same, but the sink sleeps 6.5 s and then reads on over the same connection), listener+connection down} × fault position {before first, after message 1,2,5,17} × downtime {0,1,5,50 hand-overs} × retry-max {0,1,2,5}, tcp and udp, plus seeded sequences of 2-5 faults; contents with every % verb, %%, trailing %, binary octets, up to 256 KiB. Oracle over the sink's byte streams (connections in accept order): every complete line is byte-identical to a handed-over message plus newline, no duplicates, no inversions, every message handed over while the sink had been reachable for more than 4 messages is present, delivery resumes after every fault. distinct = scenario descriptor")
+	run.SetRule("real producer.NewProducer('rawSocket') + config file + Run() against an in-process sink. Fault enumeration: {graceful close, RST, mid-line reset, stall (sink stops reading until a producer write blocks mid-message, then RST), pause (the same, but the sink sleeps 6.5 s and then reads on over the same connection), listener+connection down} × fault position {before first, after message 1,2,5,17} × downtime {0,1,5,50 hand-overs} × retry-max {0,1,2,5}, tcp and udp (also configured as tcp4 / udp4), plus seeded sequences of 2-5 faults; contents with every % verb, %%, trailing %, binary octets, up to 256 KiB. Oracle over the sink's byte streams (connections in accept order): every complete line is byte-identical to a handed-over message plus newline, no duplicates, no inversions, every message handed over while the sink had been reachable for more than 4 messages is present, delivery resumes after every fault. distinct = scenario descriptor")
 	run.Assume("bounded gap = at most 4 judged messages after the sink is reachable again (derivation in DESIGN.md C14)")
 	run.Assume("loopback TCP delivers what the kernel accepted within 20 s (watchdog for 'never arrived')")
 	run.Finish()
